@@ -135,7 +135,7 @@ def _validate_one(module, trace, wd, name, timeout, mx):
     return n, res["fails"], res
 
 
-def validate_trace(module, trace, wd, name, timeout=1200, mx="6g", parallel=1):
+def validate_trace(module, trace, wd, name, timeout=1200, mx="6g", parallel=1, cuts=False):
     """Trace validation: returns (n_events, fails, res) where fails = [[l, ev, tag, ...], ...].
     parallel > 1 (only for families whose events are independent cases): the trace is cut into
     contiguous chunks validated by concurrent TLC processes; indices are mapped back."""
@@ -148,7 +148,7 @@ def validate_trace(module, trace, wd, name, timeout=1200, mx="6g", parallel=1):
     chunks, cur, size, start = [], [], 0, 0
     for i, ln in enumerate(lines):
         cur.append(ln); size += len(ln)
-        if size >= total / parallel and len(chunks) < parallel - 1:
+        if size >= total / parallel and len(chunks) < parallel - 1 and (not cuts or '"cut":true' in ln):
             chunks.append((start, cur)); start = i + 1; cur = []; size = 0
     if cur:
         chunks.append((start, cur))
@@ -280,17 +280,24 @@ class Check:
         return zero
 
     # -- trace validation
-    def validate(self, module, trace, name, classify=None, timeout=1200, parallel=1):
+    def validate(self, module, trace, name, classify=None, timeout=1200, parallel=1, cuts=False, scope=None):
         """Validate a trace; every rejected event becomes a violation or a known finding."""
         lint_trace(trace)
-        n, fails, res = validate_trace(module, trace, self.wd, name, timeout=timeout, parallel=parallel)
+        n, fails, res = validate_trace(module, trace, self.wd, name, timeout=timeout, parallel=parallel, cuts=cuts)
         self.cov["traces_validated_against_impl"] += 1
         self.cov["events_validated"] += n
         events = None
         for f in fails:
             l, ev, tag = f[0], f[1], f[2]
-            if str(tag).startswith("STIMULUS"):
-                raise ToolError(f"{name}: event {l} ({ev}) is not a valid stimulus: {tag}")
+            if str(tag).startswith("STIMULUS") or str(tag).startswith("TRANSPORT"):
+                raise ToolError(f"{name}: event {l} ({ev}) is not a valid stimulus / transport record: {tag}")
+            if str(tag).startswith("INFO:"):
+                self.info_count(tag)
+                continue
+            if scope is not None and not scope(tag):
+                # a deviation that belongs to another property's clause: reported, not judged here
+                self.info_count("out-of-scope deviation " + str(tag))
+                continue
             if events is None:
                 events = read_events(trace)
             self.report(ev, tag, {"trace": trace, "event_index": l, "event": json.loads(events[l - 1]),
@@ -303,6 +310,11 @@ class Check:
         if k:
             self.known_hits[k["what"]] = self.known_hits.get(k["what"], 0) + 1
             return
+        self._per = getattr(self, "_per", {})
+        self._per[(ev, tag)] = self._per.get((ev, tag), 0) + 1
+        if self._per[(ev, tag)] > 5:
+            self.more = getattr(self, "more", 0) + 1
+            return
         i = len(self.violations) + 1
         path = os.path.join(WORK, "replays", f"{self.pid}-{i}.json")
         replay = dict(replay)
@@ -314,6 +326,10 @@ class Check:
         with open(path, "w") as f:
             json.dump(replay, f)
         self.violations.append((path, f"{ev}: {tag}"))
+
+    def info_count(self, text):
+        self._ic = getattr(self, "_ic", {})
+        self._ic[text] = self._ic.get(text, 0) + 1
 
     def sample(self, obj):
         if len(self.cov["samples"]) < 6:
@@ -329,6 +345,8 @@ class Check:
         if extra:
             cov.update(extra)
         cov["known_findings_hit"] = self.known_hits
+        cov["further_violations_of_reported_kinds"] = getattr(self, "more", 0)
+        cov["info"] = getattr(self, "_ic", {})
         if not cov["samples"]:
             cov["samples"] = ["(no sample recorded)"]
         ev = {"property_id": self.pid, "tier": self.tier, "seed": self.seed, "level": level,
@@ -341,9 +359,12 @@ class Check:
             log(f"KNOWN-FINDING: property={self.pid} {what} (x{n})")
         for i in self.infos:
             log("INFO " + i)
-        seen = set()
-        for path, text in self.violations:
+        for t, n in getattr(self, "_ic", {}).items():
+            log(f"INFO {t} (x{n})")
+        for path, text in self.violations[:40]:
             log(f"VIOLATION property={self.pid} replay={path}   # {text}")
+        if len(self.violations) > 40:
+            log(f"... and {len(self.violations) - 40} more violations (see evidence)")
         log(f"{self.pid} {self.tier}: mc_states={cov['states']} events_validated={cov['events_validated']} "
             f"violations={len(self.violations)} wall={wall:.1f}s")
         return 1 if self.violations else 0
